@@ -12,6 +12,7 @@ Lemma export_info_shape p info :
   info = ch_lbr :: info_body p ++ [ch_rbr] /\ contains ch_hash (info_body p) = false.
 Proof.
   unfold export_info, render_items, info_body. intro H.
+  destruct (negb (policy_safe p)); [discriminate|].
   destruct (contains ch_hash _) eqn:E; [discriminate|]. inversion H; subst. split; [reflexivity|].
   simpl in E. rewrite contains_app in E. apply orb_false_iff in E as [E _]. exact E.
 Qed.
